@@ -23,7 +23,7 @@ def main():
         d = d.rstrip("/"); cid = os.path.basename(d); log = []
         def note(s): log.append(s); print(f"[{cid}] {s}", flush=True)
         sh("git checkout -q --detach " + head + " && git checkout -q -- . && git clean -qfd -e target", cwd=wt)
-        patch = os.path.join(d, "patch.diff"); demo = os.path.join(d, "demo", "run_demo.sh")
+        patch = next(os.path.join(d, x) for x in ("patch.rebased.diff", "patch.diff") if os.path.exists(os.path.join(d, x)) or x == "patch.diff"); demo = os.path.join(d, "demo", "run_demo.sh")
         if not (os.path.exists(patch) and os.path.exists(demo)):
             note("incomplete delivery"); continue
         t0 = time.time()
